@@ -16,6 +16,7 @@ import Driver.OpsNil
 import Driver.OpsRegistry
 import Driver.OpsLayout
 import Driver.OpsTyper
+import Driver.OpsEqual
 open Lean Driver
 
 def dispatch (op : String) (j : Json) : R Json :=
@@ -37,6 +38,7 @@ def dispatch (op : String) (j : Json) : R Json :=
   | "layout" => opLayout j
   | "cast" => opCast j
   | "typer" => opTyper j
+  | "itemsEqual" => opItemsEqual j
   | _ => .error s!"unknown op {op}"
 
 partial def loop (h : IO.FS.Stream) (out : IO.FS.Stream) : IO Unit := do
